@@ -213,7 +213,7 @@ def _build_and_audit(ctx, engine):
     return broken, theorems, gen_ob, checker_cmd, tr_specs
 
 
-GROUP_NAMESPACES = {"Missing": "C19M", "Links": "C19L", "Owners": "Owners", "ValidateAll": "C19V", "GridCompat": "C15T", "MaskRules": "C18T", "GridMemo": "C14T", "RunLoop": "RunLoop", "Canonical": "C15C", "AdapterInfo": "C07A", "Linking": "C19K", "Notify": "Notify", "Rules": "Rules"}
+GROUP_NAMESPACES = {"Missing": "C19M", "Links": "C19L", "Owners": "Owners", "ValidateAll": "C19V", "GridCompat": "C15T", "MaskRules": "C18T", "GridMemo": "C14T", "RunLoop": "RunLoop", "Canonical": "C15C", "AdapterInfo": "C07A", "Linking": "C19K", "Stuck": "C06S", "Notify": "Notify", "Rules": "Rules"}
 
 
 def _run_engine(ctx, engine, broken, theorems, gen_ob, checker_cmd, tr_specs):
